@@ -82,13 +82,17 @@ class Reject(Exception):
 
 
 class Ref:
-    def __init__(self, data, ext, max_var=None):
-        """max_var: the limit configured with ProgramReader::setMaxVar (None = never called = 2^31-1). It bounds the atoms of RULES
+    def __init__(self, data, ext, max_var=None, reading='code'):
+        """reading = 'code': the limit is applied where src/smodels.cpp applies it (below). reading = 'property': the property text "atoms within
+        1..maxVar" taken literally - the limit applies to EVERY atom position (also symbol table, compute statements, E section) and to no COUNT
+        (the head count of a choice / disjunctive rule is a count, 1..2^31-1). The two readings differ only when a limit was set.
+        max_var: the limit configured with ProgramReader::setMaxVar (None = never called = 2^31-1). It bounds the atoms of RULES
         (heads, bodies of every rule type, the atom of 91 / 92) and - because the reader reads it with the same call - the head count of
         choice / disjunctive rules; symbol-table, compute and E-section atoms are bounded by atomMax = 2^31-1 whatever the limit
         (src/smodels.cpp reads them with matchPos(atomMax, ..))."""
         self.d, self.i, self.line, self.ext = list(data), 0, 1, ext
         self.vmax = INT_MAX if max_var is None else max_var
+        self.prop = reading == 'property'
         self.calls = []
 
     def peek(self):
@@ -141,6 +145,18 @@ class Ref:
             raise Reject('maxvar:' + what, self.line)
         return v
 
+    def head_size(self):
+        """code reading: matchAtom("positive head size expected"), 1 .. maxVar like an atom; property reading: a count, 1 .. 2^31-1"""
+        return self.ranged('head-size', 1, INT_MAX) if self.prop else self.atom('head-size')
+
+    def atom0(self, what):
+        """an atom or the terminating 0 of the symbol table / a compute statement / the E section: matchPos(atomMax) in the code whatever the
+        limit; under the property reading the limit applies"""
+        v = self.ranged(what, 0, INT_MAX)
+        if self.prop and v > self.vmax:
+            raise Reject('maxvar:' + what, self.line)
+        return v
+
     def body_counts(self, order):
         """reads the count / bound fields of a body in the given order; range and neg<=len are checked after all were read"""
         l0 = self.line
@@ -173,7 +189,7 @@ class Ref:
             if rt == 0:
                 return
             if rt in (3, 8):
-                n = self.atom('head-size')   # matchAtom("positive head size expected"): 1 .. maxVar like an atom
+                n = self.head_size()
                 if n > len(self.d):
                     self.fail_count()
                 hs = [self.atom('head-atom') for _ in range(n)]
@@ -214,7 +230,7 @@ class Ref:
 
     def symbols(self):
         while True:
-            a = self.ranged('symbol-atom', 0, INT_MAX)
+            a = self.atom0('symbol-atom')
             if a == 0:
                 return
             self.get()  # the separator
@@ -237,7 +253,7 @@ class Ref:
         if self.get() != 10:
             raise Reject('token:newline-after-%s-expected' % key.decode(), l0, self.line)
         while True:
-            a = self.ranged('compute-atom', 0, INT_MAX)
+            a = self.atom0('compute-atom')
             if a == 0:
                 return
             self.calls.append((4, 0, [], [-a if positive else a]))
@@ -247,7 +263,7 @@ class Ref:
         if self.peek() == 69:
             self.i += 1
             while True:
-                a = self.ranged('external-section-atom', 0, INT_MAX)
+                a = self.atom0('external-section-atom')
                 if a == 0:
                     break
                 self.calls.append((9, a, 0))
@@ -276,8 +292,8 @@ class Ref:
                 raise Reject('extra:input-after-program', self.line)
 
 
-def reference(data, ext, max_var=None):
-    r = Ref(data, ext, max_var)
+def reference(data, ext, max_var=None, reading='code'):
+    r = Ref(data, ext, max_var, reading)
     try:
         r.program()
         return True, r.calls, None
@@ -330,6 +346,30 @@ def scan_delivered(cs, vmax=INT_MAX):
     return sig
 
 
+# Known findings (KNOWN_FINDINGS.txt, coordinator's decision, not repaired in /repo): with a limit set by setMaxVar the code (a) does not apply it to
+# symbol-table / compute-statement / E-section atoms and (b) applies it to the head COUNT of choice / disjunctive rules. The oracle reports exactly
+# these shapes - the code reading and the property reading of the reference disagree about ACCEPTANCE, and the implementation sides with the code -
+# under their own signatures; every other case is judged as before (code reading).
+REPORT_MAXVAR_FINDINGS = True
+NOT_APPLIED = {'maxvar:symbol-atom': 'symbol-table', 'maxvar:compute-atom': 'compute', 'maxvar:external-section-atom': 'external-section'}
+
+
+def maxvar_finding(c, data, ext, vmax, status, okc, rejc):
+    """-> (signature or None, property-reading result or None). Only when a limit is set and the two readings disagree about acceptance."""
+    if not REPORT_MAXVAR_FINDINGS or max_var_field(c) == 0:
+        return None, None
+    okp, pcalls, rejp = reference(data, ext, vmax, 'property')
+    if okp == okc:
+        return None, None
+    if okc and rejp.reason in NOT_APPLIED:
+        # everything is well-formed under the limit as the code applies it; the first thing the property reading objects to is an atom above the limit
+        return ('max-var-not-applied:' + NOT_APPLIED[rejp.reason]) if status == 1 else None, (okp, pcalls, rejp)
+    if okp and rejc.reason == 'maxvar:head-size':
+        # well-formed under the limit (every ATOM <= limit); the code refuses the head count
+        return 'head-count-checked-against-max-var' if status == 0 else None, (okp, pcalls, rejp)
+    return None, None
+
+
 def oracle(c, obs):
     n, ob, data = decode(c)
     if obs and obs[0] == -999:
@@ -348,6 +388,11 @@ def oracle(c, obs):
         sig.append('exception-escaped-error-handler')
         return sig
     ok, rcalls, rej = reference(data, bool(ob & 1), vmax)
+    finding, prop = maxvar_finding(c, data, bool(ob & 1), vmax, status, ok, rej)
+    if finding:
+        sig.append(finding)       # the implementation sides with the code reading: everything else is judged against that reading below
+    elif prop:
+        ok, rcalls, rej = prop    # the implementation sides with the property reading here: judge it against that reading
     got = [norm_call(x) for x in cs]
     want = [norm_call(x) for x in rcalls]
     if status == 1:
@@ -844,7 +889,8 @@ def mutate(case, rnd):
 
 
 RULE = ('cases = (buffer size N in {4096,16,32}, options claspExt x filter, caller = readSmodels (parse(Complete)) or the step-wise API '
-        '(accept; parse(Incremental); while more(): parse(Incremental)), NUL-free text); texts are rendered from random well-formed '
+        '(accept; parse(Incremental); while more(): parse(Incremental)), the reader\'s atom limit (none, or setMaxVar(n) before reading: n just below / at / '
+        'just above the numbers of the text, 1..8, 2^31-2, 2^31-1, 0; fixed texts for every limited and every unlimited position), NUL-free text); texts are rendered from random well-formed '
         '(optionally clasp-extended, optionally multi-step) smodels programs in LF / CRLF / wild-whitespace / general layout and then left valid or '
         'given one fault (a numeric position set to 2^31, 2^32-1, 2^32, 2^63, 2^64+k, ...; neg > len; dropped/duplicated/swapped item; '
         'truncation; byte edits; token soup), or followed by input behind the number-of-models field (further well-formed steps, garbage tokens, white '
@@ -856,7 +902,9 @@ TRUSTED_BASE = ['coq/C09/Spec.v abstract stream (refinement of BufferedStream is
                 'RuleBuilder modelled abstractly (collects head/body lists and delivers them unchanged)',
                 'props/C07.py reference reader (oracle on the implementation)']
 ASSUMPTIONS = ['Options.cEdge = Options.cHeuristic = false (conversion of special predicates is C08)',
-               'NUL-free input; maxVar = INT_MAX (readSmodels gives no access to setMaxVar)',
+               'NUL-free input; setMaxVar(n) only with n <= 2^31-1 (beyond that lit() would cast unchecked: outside the domain, answered -3); the limit bounds rule atoms and the head count of '
+               'choice / disjunctive rules - symbol-table, compute and E-section atoms are bounded by 2^31-1 whatever the limit (src/smodels.cpp as it is; the four deviations from the literal '
+               'property text are known findings maxvar-symbol-table / -compute / -external-section / -head-count, reported under their own oracle signatures)',
                'well-formed = coq/C07/SpecG.v: text starts with a digit (format probe), numbers may carry a sign / leading zeros, the byte after a symbol-table atom is a separator unless it is a digit or NUL, '
                'B+/B- directly followed by a line break, the first field of an optimize rule is an ignored value in 0..2^31-1, number of models in 0..2^32-1']
 LEVEL_TEXT = ('Machine-checked proofs (Coq) about an executable model of SmodelsInput over the abstract byte stream. EXACTNESS for arbitrary byte lists '
@@ -868,6 +916,10 @@ LEVEL_TEXT = ('Machine-checked proofs (Coq) about an executable model of Smodels
               'out-of-range weights, bounds, atoms, neg > len and ungated extension rules give an error whatever the magnitude (c07_rejects and instances). '
               'For EVERY byte list: the delivered calls respect the consumer contract (minimize priority bounded by the input length), '
               'an accepted input leaves no step open, no model loop runs out of fuel, and a reported line lies within 1 .. 1 + line breaks. '
+              'All of this for every atom limit vm <= 2^31-1 set with ProgramReader::setMaxVar (model read_smodels_v vm; c07_maxvar_complete / _rejects / _sound / _gcomplete / _exact / _denotes / '
+              '_rejects_exact / _only_removes / _delivered / _contract / _total): in range then means rule atoms and head counts within 1..vm; the statements without a limit are the instance '
+              'vm = 2^31-1 by conversion (c07_default_is_instance). The literal reading of the property (limit on every atom, on no count) is refuted on four shapes '
+              '(c07_maxvar_symbol_atom_refuted, c07_maxvar_compute_atom_refuted, c07_maxvar_external_atom_refuted, c07_maxvar_head_count_refuted; known findings). '
               'The model is tied to the code by differential correspondence at BUF_SIZE 4096/16/32 (incl. general-layout texts) and an independent python reference reader.')
 LEVEL_NOTE = 'Trusted: Coq kernel, extraction+driver (sample cross-checked by vm_compute), harness, translator, abstract stream spec (C09).'
 TECHNIQUE = 'Coq proof about an executable model + differential correspondence with the implementation'
